@@ -12,11 +12,13 @@ Three streams of cases:
  * basis: 2-4 shell bases of every coordinate-type pattern, both notations, with/without transform, plus the
    implementation-only relation physicist == chemist.transpose(0,2,1,3) (bitwise);
  * ill: the FIXED list of realistic ill-conditioned quartets (core s exponents 1e3..1e5 against diffuse d/f
-   shells, exponents 0.05..0.5), both bra/ket orientations.  On these the implementation is genuinely wrong in
-   the orientation (core core | diffuse diffuse): the electron-transfer recursion builds [a0|c0] from [a+c 0|00]
-   with factors p/q per step and cancels terms of size (p/q)^(Lc/2) against each other.  Not a small repair, so it
-   is a KNOWN FINDING (KNOWN_FINDINGS.json, key C04-etransfer-conditioning) recognised by `known` below from the
-   INPUT quartet; any other disagreement is a violation.
+   shells, exponents 0.05..0.5; plus six quartets INSIDE the random exponent range: diffuse s/p on one centre
+   paired with a tight d/f on a centre 2-4 bohr away, against a diffuse d/f pair), both bra/ket orientations.
+   On these the implementation is genuinely wrong in ONE orientation ((core core | diffuse diffuse), (diffuse
+   tight | diffuse diffuse)) and exact to 1e-14 in the other: the electron-transfer recursion builds [a0|c0] from
+   [a+c 0|00] with factors p/q per step and cancels large terms against each other (`_amp_prim`).  Not a small
+   repair, so it is a KNOWN FINDING (KNOWN_FINDINGS.json, key C04-etransfer-conditioning) recognised by `known`
+   below from the INPUT quartet; any other disagreement is a violation.
 
 Memory: the exact model of an (ff|ff)-type quartet on two centres needs ~4 GB; such cases run 4 at a time, the
 rest 16 at a time.  The model is run through the extracted runner; `xcheck_cmds` re-evaluates a few small
@@ -39,8 +41,9 @@ RULE = ("block level: shell quartets with l in 0..3; quick = stratified seed-dep
         "Exponents log-uniform in 0.1..10 (0.2..5 when the quartet contains an f shell), 8-bit mantissas, centres "
         "k/16, coefficients k/8. basis level: 2-4 shells, all-Cartesian / all-spherical / mixed, l<=2 (f on one "
         "centre in thorough), both notations, every third case with a (rectangular) transform, invalid notations. "
-        "ill-conditioned list: fixed, 96 quartets (core s 1e3/1e4/1e5/contracted x diffuse dd/ff/df/pf pairs x "
-        "same atom / other atom x both orientations). Non-trivial: L>0 or K>1 or M>1 and a block that is not "
+        "ill-conditioned list: fixed, 108 quartets (core s 1e3/1e4/1e5/contracted x diffuse dd/ff/df/pf pairs x "
+        "same atom / other atom x both orientations; 6 in-range quartets diffuse s/p at A + tight d/f (exponent 10 / 5) "
+        "at B, |AB| = 2 or 4, against diffuse d/f pairs, both orientations). Non-trivial: L>0 or K>1 or M>1 and a block that is not "
         "identically zero; distinct by the hash of the exact input")
 ASSUMPTIONS = [
     "floating-point rounding of the NumPy pipeline and of scipy.special.hyp1f1 is not modelled: the 1e-6*Schwarz "
@@ -50,11 +53,12 @@ ASSUMPTIONS = [
 ]
 TOL_REL = 1e-6
 KEY = "C04-etransfer-conditioning"
-SAFETY = 64.0          # observed error / estimate was <= 7.2 on the calibration scan (504 quartets)
+SAFETY = 256.0         # observed error / estimate: <= 7.2 on the core-s list (504 quartets), <= 3.3 on in-range adversarial
+                       # geometries, 12 on a tight-f contraction, <= 75 on 344 random quartets (there at 8e-9 of Schwarz)
 EXTRA = {
-    "known_finding_predicate": "(p_max/q_min)^((lc+ld)/2) * 2^-53 * 64 > 1e-6 and observed error/Schwarz <= that "
-                               "estimate, p_max = max exps(s1)+max exps(s2), q_min = min exps(s3)+min exps(s4) "
-                               "(evaluated orientation)",
+    "known_finding_predicate": "est = 2^-53 * 256 * max over primitive quartets of kappa^(lc+ld) * h^lb exceeds 1e-6 and the "
+                               "observed error / Schwarz scale is <= est; kappa = max(1, (p/q) sqrt(|PA|^2+1/(2p)) / "
+                               "sqrt(|QC|^2+1/(2q))), h = max(1, |AB| sqrt(2p)), for the orientation that is evaluated",
 }
 
 
@@ -114,14 +118,40 @@ def _pair_diag(model, sa, sb):
     return _SCHW[key]
 
 
+def _amp_prim(A, B, C, D, a, b, c, d, lb, lcd):
+    """one primitive quartet evaluated as (a b | c d).  The code builds [a0|c0] from [a+c 0|00] by the electron
+    transfer E[c+1][a] = (QC + (p/q) PA) E[c][a] - (p/q) E[c][a+1] + ..., in which (p/q) E[c][a+1] ~ (p/q) s_a E[c][a]
+    is cancelled down to s_c E[c][a]: s_a = sqrt(|PA|^2 + 1/(2p)) and s_c = sqrt(|QC|^2 + 1/(2q)) are the sizes of
+    (x - A) on the bra distribution and of (x - C) on the ket distribution.  Each of the lc+ld steps therefore
+    amplifies rounding by kappa = (p/q) s_a / s_c (when > 1); the horizontal recursion a -> b then cancels
+    |AB|^lb down to (1/sqrt(2p))^lb.  (A = B, C = D: kappa = sqrt(p/q).)"""
+    p, q = a + b, c + d
+    P = [(a * A[i] + b * B[i]) / p for i in range(3)]
+    Q = [(c * C[i] + d * D[i]) / q for i in range(3)]
+
+    def dist(u, v):
+        return math.sqrt(sum((x - y) ** 2 for x, y in zip(u, v)))
+
+    wp, wq = 1.0 / math.sqrt(2 * p), 1.0 / math.sqrt(2 * q)
+    sa = math.sqrt(dist(P, A) ** 2 + wp * wp)
+    sc = math.sqrt(dist(Q, C) ** 2 + wq * wq)
+    kappa = max(1.0, (p / q) * sa / sc)
+    h = max(1.0, dist(A, B) / wp)
+    return kappa ** lcd * h ** lb
+
+
 def amplification(ss):
-    """(p_max/q_min)^((lc+ld)/2): how much the electron-transfer recursion amplifies rounding errors when the
-    quartet is evaluated in this orientation (ss: four XShell)"""
-    p = max(ss[0].exps) + max(ss[1].exps)
-    q = min(ss[2].exps) + min(ss[3].exps)
-    lc = ss[2].l + ss[3].l
-    r = float(p / q)
-    return r ** (lc / 2.0) if r > 1.0 else 1.0
+    """estimated amplification of rounding errors when the quartet (four XShell) is evaluated in THIS orientation:
+    the largest kappa^(lc+ld) * h^lb over its primitive quartets"""
+    A, B, C, D = [[float(x) for x in s.coord] for s in ss]
+    best = 1.0
+    for a in ss[0].exps:
+        for b in ss[1].exps:
+            for c in ss[2].exps:
+                for d in ss[3].exps:
+                    best = max(best, _amp_prim(A, B, C, D, float(a), float(b), float(c), float(d),
+                                               ss[1].l, ss[2].l + ss[3].l))
+    return best
 
 
 def fcompare(impl, nested, tol_fn):
@@ -272,9 +302,12 @@ def _kf_text():
 
 
 def known(case, detail):
-    """A value disagreement on a quartet whose evaluated orientation (bra pair much tighter than the ket pair, high
-    ket angular momentum) amplifies rounding by (p_max/q_min)^((lc+ld)/2): the predicate is on the INPUT; the size
-    of the observed error must also be explained by that estimate.  Never true for exponents within 0.1..10."""
+    """A value disagreement on a quartet whose evaluated orientation amplifies rounding in the electron-transfer /
+    horizontal recursions (`amplification`: bra pair much tighter than the ket pair, or a tight high-l function
+    paired with a diffuse one on a distant centre, and high ket angular momentum).  The predicate is on the INPUT
+    (estimate * 2^-53 * SAFETY above the tolerance); in addition the size of the observed error must be explained by
+    the estimate, so that a wrong coefficient (errors of order 1e-2..1 of the Schwarz scale) is not absorbed.  For
+    quartets with exponents in 0.1..10 on one or two nearby centres the estimate stays below the tolerance."""
     if not _kf_text() or not isinstance(detail, dict) or detail.get("kind") != "value":
         return None
     if case.get("kind") in ("block", "ill"):
@@ -469,6 +502,19 @@ def ill_conditioned_list():
         ("pf", lambda c: [XShell(1, c, [F(1, 8)], [[1]]), XShell(3, c, [F(5, 16)], [[1]])]),
     ]
     cases = []
+    # inside the property's own exponent range (0.1..10, 0.2..5 with f): a diffuse low-l function at A paired with a
+    # tight high-l function at B (|AB| = 2 or 4 bohr) against a diffuse ket pair on a third centre or on A
+    for dist, t, lo, hi, ket_at in ((4, (0, 2, 2, 2), F(1, 8), F(10), "C"), (4, (1, 2, 2, 2), F(1, 8), F(10), "A"),
+                                    (4, (0, 2, 3, 3), F(1, 4), F(5), "C"), (2, (0, 3, 3, 3), F(1, 4), F(5), "C"),
+                                    (4, (0, 3, 3, 3), F(1, 4), F(5), "C"), (4, (0, 3, 3, 3), F(1, 4), F(5), "A")):
+        A = [F(0), F(0), F(0)]
+        B = [F(dist), F(0), F(0)]
+        Kc = [F(0), F(dist), F(1, 2)] if ket_at == "C" else A
+        bra = [XShell(t[0], A, [lo], [[1]]), XShell(t[1], B, [hi], [[1]])]
+        ket = [XShell(t[2], Kc, [lo], [[1]]), XShell(t[3], Kc, [lo], [[1]])]
+        for orient, ss in (("diffuse-tight|diffuse", bra + ket), ("diffuse|diffuse-tight", ket + bra)):
+            cases.append({"kind": "ill", "name": "in-range %d%d%d%d |AB|=%d ket@%s %s" % (t + (dist, ket_at, orient)),
+                          "s": [s.to_json() for s in ss]})
     for cname, core in cores:
         for dname, dif in diffuse:
             for where, cd in (("same-atom", at2), ("other-atom", at1)):
@@ -616,20 +662,22 @@ def run(rep, tier, seed, model, replay):
 
 
 def xcheck_cmds(seed):
-    """small commands 20 / 21 re-evaluated inside Coq with vm_compute (validates extraction + driver glue)"""
+    """small commands 20 / 21 re-evaluated inside Coq with vm_compute (validates extraction + driver glue).  Kept
+    tiny: Qc arithmetic on the 72-bit oracle values is ~1000 x slower under vm_compute than extracted ((pp|sp) takes
+    3 minutes), so: (sp|ss) (vertical step), (ss|sp) (electron-transfer + horizontal step), and a two-s-shell basis
+    on one centre with a 1 x 2 transform in physicists' notation (assembly, eight-fold fill, lincomb4, swapax)."""
     rng = random.Random(770 + seed)
     F = Fraction
 
-    def sh(l, sph=False):
-        return XShell(l, [F(rng.randint(-4, 4), 4) for _ in range(3)], [F(rng.randint(2, 12), 4)],
-                      [[F(rng.randint(1, 4), 2)]], sph)
+    def sh(l, coord=None):
+        return XShell(l, coord or [F(rng.randint(-4, 4), 4) for _ in range(3)], [F(rng.randint(2, 12), 4)],
+                      [[F(rng.randint(1, 4), 2)]], False)
 
     q1 = [sh(0), sh(1), sh(0), sh(0)]
-    q2 = [sh(1), sh(0), sh(1), sh(1)]
-    b1 = [sh(0), sh(1, True)]
-    b2 = [sh(0), sh(0)]
-    T = [[F(1), F(-1, 2)], [F(1, 2), F(2)]]
+    q2 = [q1[0], q1[2], q1[3], sh(1)]
+    c = [F(rng.randint(-4, 4), 4) for _ in range(3)]
+    b = [sh(0, c), sh(0, c)]
+    T = [[F(1), F(rng.choice([-1, 1]), 2)]]
     return ["(20 %s)" % " ".join(s.sx() for s in q1),
             "(20 %s)" % " ".join(s.sx() for s in q2),
-            "(21 (%s) () 1)" % " ".join(s.sx() for s in b1),
-            "(21 (%s) %s 0)" % (" ".join(s.sx() for s in b2), _t_sx(T))]
+            "(21 (%s) %s 1)" % (" ".join(s.sx() for s in b), _t_sx(T))]
